@@ -552,6 +552,60 @@ def r19e(R):
                 line=getattr(bad[0][2], 'lineno', 0) if bad else 0)
 
 
+def _value_source(A, f, e, depth=0):
+    """Functions a value expression of f is produced by: calls, property
+    reads on self, locals followed to their single binding."""
+    if isinstance(e, ast.Name) and depth < 4:
+        defs = [n for n in walk_own(f.node) if isinstance(n, ast.Assign)
+                and any(isinstance(t, ast.Name) and t.id == e.id for t in n.targets)]
+        out = []
+        for d in defs:
+            out += _value_source(A, f, d.value, depth + 1)
+        return out
+    if isinstance(e, ast.Call):
+        return list(A.callees(f, e)) or [norm(e.func)]
+    if isinstance(e, ast.Attribute) and isinstance(e.value, ast.Name) \
+            and e.value.id == 'self' and f.cls is not None:
+        for c in f.cls.mro():
+            m = c.methods.get(e.attr)
+            if m is not None and 'property' in m.decorators:
+                return [m]
+    return [norm(e)]
+
+
+@rule('R19.f', ('C19',), 'the printf format is read as a string constant: a '
+      'literal or a macro', floor=2,
+      decides='printf writes its format string filled in - also when the '
+              'format is given by a `define`d name, as the manual shows')
+def r19f(R):
+    A = R.A
+    pf = A.func(IOPARSER, 'IoParser.printf')
+    get_macro = A.func('bardolph.parser.context', 'Context.get_macro')
+    uses = []
+    for c in A.calls_in(pf):
+        if norm(c.func).endswith('Formatter().parse') and c.args:
+            uses.append(('counted fields', c.args[0]))
+    for call, ops in A.emission_sites(pf):
+        for op, args in ops:
+            if op == 'OUT' and len(args) > 1:
+                v = A.try_fold(args[0], pf)
+                if getattr(v, 'member', None) == 'PRINTF':
+                    uses.append(('emitted format', args[1]))
+    if len(uses) < 2:
+        raise AnalysisError('IoParser.printf: format uses not found')
+    for what, e in uses:
+        srcs = _value_source(A, pf, e)
+        ok = bool(srcs) and all(
+            not isinstance(s, str) and get_macro in A.rs.reachable([s])
+            for s in srcs)
+        R.check(pf, '%s: %s <- %s' % (what, norm(e), ', '.join(
+            s if isinstance(s, str) else s.short for s in srcs)), ok,
+            'the format (%s) is taken from the raw token text, not through '
+            'the constant resolver: a format given by a macro name is printed '
+            'as the name itself (or its fields are not counted), and a '
+            'non-string token is accepted as a format' % what)
+
+
 @rule('R19.d', ('C19',), 'printf escapes and argument order; PRINT / '
       'PRINT_END; sink separator logic', floor=5,
       decides='printf fills the format as str.format would, \\n means a line '
